@@ -155,6 +155,10 @@ def run(ctx):
         cases.append(("witness:" + name, [{"name": "main.xgo", "src": src}], "witness"))
     for name, src in diag.items():
         cases.append(("diag:" + name, [{"name": "main.xgo", "src": src}], "diag"))
+    # mixed main packages under the DEFAULT config: main / init / other symbols in Go files vs XGo files; the written Go is
+    # type-checked together with the package's .go files
+    for name, files in g9diag.mixed_main_packages().items():
+        cases.append(("mixed:" + name, files, "mixed"))
     # deterministic near-miss enumeration
     bases = []
     cdir = os.path.join(vlib.VERIF, "corpus", "C06")
